@@ -8,8 +8,8 @@
 (* is logged as a RaceReport event, for which the specification has no action: rejected.        *)
 EXTENDS TraceIO, FiniteSets
 
-VARIABLES l, mem0, pc, val
-tvars == <<l, mem0, pc, val>>
+VARIABLES l, mem0, pc, val, tabs
+tvars == <<l, mem0, pc, val, tabs>>
 Ev == Trace[l]
 IsEvent(k) == l <= Len(Trace) /\ Ev.k = k /\ Ev.abn = "" /\ l' = l + 1
 
@@ -17,19 +17,24 @@ Learn(c, r) == /\ (c \in DOMAIN val => val[c] = r)
                /\ val' = IF c \in DOMAIN val THEN val ELSE (c :> r) @@ val
 
 TraceInitEv == /\ IsEvent("Init")
-               /\ mem0' = Ev.mem /\ pc' = [g \in {} |-> "idle"] /\ val' = [c \in {} |-> ""]
+               /\ mem0' = Ev.mem /\ pc' = [g \in {} |-> "idle"] /\ val' = [c \in {} |-> ""] /\ tabs' = <<>>
 TraceStart  == /\ IsEvent("Start")
                /\ (Ev.g \in DOMAIN pc => pc[Ev.g] = "idle")
-               /\ pc' = (Ev.g :> Ev.call) @@ pc /\ UNCHANGED <<mem0, val>>
+               /\ pc' = (Ev.g :> Ev.call) @@ pc /\ UNCHANGED <<mem0, val, tabs>>
 TraceFinish == /\ IsEvent("Finish")
                /\ Ev.g \in DOMAIN pc /\ pc[Ev.g] = Ev.call
                /\ Learn(Ev.call, Ev.r)
-               /\ pc' = (Ev.g :> "idle") @@ pc /\ UNCHANGED mem0
-TraceSeqCall == /\ IsEvent("SeqCall") /\ Learn(Ev.call, Ev.r) /\ UNCHANGED <<mem0, pc>>
-\* no reader wrote shared memory or a package table
-TraceSnapshot == /\ IsEvent("Snapshot") /\ Ev.mem = mem0 /\ UNCHANGED <<mem0, pc, val>>
+               /\ pc' = (Ev.g :> "idle") @@ pc /\ UNCHANGED <<mem0, tabs>>
+TraceSeqCall == /\ IsEvent("SeqCall") /\ Learn(Ev.call, Ev.r) /\ UNCHANGED <<mem0, pc, tabs>>
+\* no reader wrote a shared input (every snapshot equals the initial one) or a package table after its
+\* initialisation: the tables are compared among the snapshots, the first of which is taken after the cold
+\* concurrent phase (a table initialised lazily, under proper synchronisation, on first use is still
+\* "initialisation"; an unsynchronised one is a data race, reported by the detector)
+TraceSnapshot == /\ IsEvent("Snapshot") /\ Ev.mem = mem0
+                 /\ (tabs # <<>> => Ev.tabs = tabs) /\ tabs' = Ev.tabs
+                 /\ UNCHANGED <<mem0, pc, val>>
 
-TraceInit == l = 1 /\ mem0 = <<>> /\ pc = <<>> /\ val = <<>>
+TraceInit == l = 1 /\ mem0 = <<>> /\ pc = <<>> /\ val = <<>> /\ tabs = <<>>
 TraceNext == TraceInitEv \/ TraceStart \/ TraceFinish \/ TraceSeqCall \/ TraceSnapshot
 TraceSpec == TraceInit /\ [][TraceNext]_tvars
 =============================================================================
